@@ -285,15 +285,47 @@ func parseableRoot(w *bufio.Writer) {
 	raw, _ := p.Lex("fn", strings.NewReader("a b c"))
 	pl, _ := lexer.Upgrade(&sliceLexer{t: raw}, elideTypes(p.Lexer())...)
 	var words []string
-	for i := 0; i < 5 && !pl.Peek().EOF(); i++ {
-		v, err := p.ParseFromLexer(pl, participle.AllowTrailing(true))
-		if err != nil {
-			words = append(words, "err:"+err.Error())
-			break
+	func() {
+		defer func() {
+			if r := recover(); r != nil {
+				words = append(words, fmt.Sprintf("panic:%v", r))
+			}
+		}()
+		for i := 0; i < 5 && !pl.Peek().EOF(); i++ {
+			v, err := p.ParseFromLexer(pl, participle.AllowTrailing(true))
+			if err != nil {
+				words = append(words, "err:"+err.Error())
+				break
+			}
+			words = append(words, fmt.Sprintf("%s@cursor=%d", v.Word, int(pl.RawCursor())+1))
 		}
-		words = append(words, fmt.Sprintf("%s@cursor=%d", v.Word, int(pl.RawCursor())+1))
-	}
+	}()
 	fmt.Fprintf(w, "parseable-root\t0\t0\tParseFromLexer+AllowTrailing\t%s\n", strings.Join(words, " "))
+	// a root grammar type implemented by user code: every entry point, fully accepted and rejected inputs
+	for i, in := range []string{"a", "a b", "", " a "} {
+		for _, ep := range []struct {
+			name string
+			f    func() (*prWord, error)
+		}{
+			{"ParseString", func() (*prWord, error) { return p.ParseString("fn", in) }},
+			{"ParseBytes", func() (*prWord, error) { return p.ParseBytes("fn", []byte(in)) }},
+			{"Parse", func() (*prWord, error) { return p.Parse("fn", strings.NewReader(in)) }},
+		} {
+			out := runGuarded(func() (res string) {
+				defer func() {
+					if r := recover(); r != nil {
+						res = fmt.Sprintf("panic %v", r)
+					}
+				}()
+				v, err := ep.f()
+				if err != nil {
+					return "err " + err.Error()
+				}
+				return "ok " + v.Word
+			})
+			fmt.Fprintf(w, "parseable-root-eps\t0\t%d\t%s\t%s\n", i, ep.name, out)
+		}
+	}
 }
 
 type tsGrammar struct {
